@@ -19,6 +19,8 @@ I16(x)      == U16(IF x < 0 THEN x + 65536 ELSE x)
 U32(x)      == <<(x \div 16777216) % 256, (x \div 65536) % 256, (x \div 256) % 256, x % 256>>
 RdU16(b, p) == b[p + 1] * 256 + b[p + 2]
 RdI16(b, p) == LET u == RdU16(b, p) IN IF u >= 32768 THEN u - 65536 ELSE u
+\* a big-endian 32-bit word, byte by byte: b0 * 2^24 + b1 * 2^16 + b2 * 2^8 + b3   (b0 < 128 here)
+RdU32(b, p) == b[p + 1] * 16777216 + b[p + 2] * 65536 + b[p + 3] * 256 + b[p + 4]
 Concat(ss)  == FoldLeft(LAMBDA a, s : a \o s, <<>>, ss)
 Zeros(n)    == [i \in 1..n |-> 0]
 PadTo(r, m) == r \o Zeros((m - (Len(r) % m)) % m)
@@ -53,8 +55,7 @@ ParseLoca(fmt, loca) ==
           ELSE IF fmt = 0
             THEN [ok |-> TRUE, offs |-> [i \in 1..n |-> 2 * RdU16(loca, 2 * (i - 1))]]
             ELSE IF \E i \in 1..n : loca[4 * (i - 1) + 1] >= 128 THEN BadLoca   \* beyond TLC integers
-            ELSE [ok |-> TRUE, offs |-> [i \in 1..n |->
-                     RdU16(loca, 4 * (i - 1)) * 65536 + RdU16(loca, 4 * (i - 1) + 2)]]
+            ELSE [ok |-> TRUE, offs |-> [i \in 1..n |-> RdU32(loca, 4 * (i - 1))]]
 
 Monotone(offs)     == \A i \in 1..(Len(offs) - 1) : offs[i] <= offs[i + 1]
 AllEven(offs)      == \A i \in 1..Len(offs) : offs[i] % 2 = 0
